@@ -37,6 +37,11 @@ class Clock:
         if self.mode == "backwards":       # random walk, may go back by up to 5 ms
             self.t += self.rng.choice([-0.005, -0.001, 0.0, 0.001, 0.002, 0.01])
             return self.t
+        if self.mode == "stepback":        # ~1 ms per call; now and then the wall clock is stepped back an hour (NTP,
+            self.t += 0.0007               # a writer host whose clock runs behind)
+            if self.rng.random() < 1 / 45:
+                self.t -= 3600.0
+            return self.t
         raise ValueError(self.mode)
 
 
@@ -141,6 +146,30 @@ class History:
                 ids = self.fresh_ids(op[1])
                 out["ids"] = ids
                 t.append_records(tables.rows(ids))
+            elif kind == "raced":
+                # an append whose first attempt loses the race: a second handle commits an append right
+                # before this transaction first tries to take the metadata lock (its base is read by
+                # then); the commit has to retry
+                ids2 = self.fresh_ids(1)
+                ids = self.fresh_ids(op[1])
+                out["ids"] = ids
+                out["winner_ids"] = ids2
+                st = {"done": False}
+                other = self.ds.load_table(self.table_path)
+
+                def race(o: Any) -> None:
+                    if o.phase == "before" and not st["done"] and o.depth == 0 and \
+                            (o.name == "flock.try" or o.name.startswith("s3lock.")):
+                        st["done"] = True
+                        other.append_records(tables.rows(ids2))
+                        self.observe(("raced-winner",), True)
+
+                self.ip.before.append(race)
+                try:
+                    t.append_records(tables.rows(ids))
+                finally:
+                    self.ip.before.remove(race)
+                out["raced"] = st["done"]
             elif kind == "multi":
                 with t.new_transaction() as tx:
                     allids = []
@@ -398,6 +427,8 @@ def gen_ops(rng: random.Random, n: int, alphabet: List[str]) -> List[Tuple[Any, 
             ops.append(("prebuilt", rng.choice(["lead", "nolead", "double", "dot", "updown"]), rng.randint(1, 2)))
         elif k == "reopen":
             ops.append(("reopen",))
+        elif k == "raced":
+            ops.append(("raced", rng.randint(1, 2)))
         else:
             raise ValueError(k)
     return ops
